@@ -535,12 +535,30 @@ func (c *Ctx) eval(f *frame, in ssa.Value) Value {
 		case *strIter:
 			return c.strNext(iv)
 		case *mapIter:
-			if iv.m == nil || iv.pos >= len(iv.m.keys) {
+			if iv.m == nil {
 				return Tuple{Bool(false), nil, nil}
 			}
-			k, v := iv.m.keys[iv.pos], iv.m.vals[iv.pos]
-			iv.pos++
-			return Tuple{Bool(true), k, v}
+			if !iv.started {
+				iv.started = true
+				n := len(iv.m.keys)
+				iv.rest = make([]int, n)
+				for k := range iv.rest {
+					iv.rest[k] = k
+				}
+				// Go leaves map iteration order undefined: within the bound the next
+				// entry is a choice point, so every permutation is explored
+				iv.symbolic = n > 1 && n <= c.mapOrderMax
+			}
+			if len(iv.rest) == 0 {
+				return Tuple{Bool(false), nil, nil}
+			}
+			pick := 0
+			if iv.symbolic && len(iv.rest) > 1 {
+				pick = c.chooseFree(len(iv.rest))
+			}
+			idx := iv.rest[pick]
+			iv.rest = append(append([]int{}, iv.rest[:pick]...), iv.rest[pick+1:]...)
+			return Tuple{Bool(true), iv.m.keys[idx], iv.m.vals[idx]}
 		}
 	case *ssa.SliceToArrayPointer:
 		s := c.get(f, i.X).(Slice)
@@ -561,8 +579,10 @@ type strIter struct {
 	pos int
 }
 type mapIter struct {
-	m   *Map
-	pos int
+	m        *Map
+	started  bool
+	symbolic bool
+	rest     []int
 }
 
 func (c *Ctx) elemPtr(elems []Value, idx *Term) *Ptr {
